@@ -131,7 +131,8 @@ def run_property(prop: str, tier: str, jobs: int = 16, only: Optional[str] = Non
     with ctx.Pool(processes=min(jobs, max(1, len(jobs_list))), maxtasksperchild=1) as pool:
         for res in pool.imap_unordered(_run_cell, jobs_list):
             results.append(res)
-            print(f"  [{res.verdict:14s}] {res.name}  paths={res.paths} "
+            if res.verdict != "confirmed" or os.environ.get("VF_VERBOSE"):
+              print(f"  [{res.verdict:14s}] {res.name}  paths={res.paths} "
                   f"solver={res.solver_calls}/{res.solver_s:.2f}s wall={res.wall_s:.1f}s"
                   + (f"  known={list(res.known_hits)}" if res.known_hits else "")
                   + (f"  {res.reason}" if res.reason else ""), flush=True)
